@@ -200,11 +200,11 @@ int main(int argc, char** argv)
 
     if (!strcmp(mode, "c01") || !strcmp(mode, "c06")) {
         static const int ents[] = {E_DEFAULT, E_FAST_FASTRESET, E_HC, E_HC_FAVOR};
-        int ncases = thorough ? 40000 : 2500;
-        exhaustive_ab(thorough ? 16 : 11, ents, !strcmp(mode, "c06") ? 3 : 4);
+        int ncases = thorough ? SH(40000) : 2500;
+        if (ONCE) exhaustive_ab(thorough ? 16 : 11, ents, !strcmp(mode, "c06") ? 3 : 4);
         window_edge_cases(data);
-        run_window_edge_cases(data, thorough ? 400 : 40);
-        tiny_alphabet_sweep(data, thorough ? 40000 : 3000);
+        run_window_edge_cases(data, thorough ? SH(400) : 40);
+        tiny_alphabet_sweep(data, thorough ? SH(40000) : 3000);
         for (i = 0; i < ncases; i++) {
             int kind = (int)rndn(D_KINDS); size_t n = gen_size(i % 50 == 0 ? maxn : (i % 7 == 0 ? 70000 : 3000));
             int entry, param, cap, bound, e, nrep;
@@ -220,7 +220,7 @@ int main(int argc, char** argv)
         }
     } else if (!strcmp(mode, "c09")) {
         /* every capacity 0..bound+1 for small inputs; sampled capacities for larger ones; bad sizes */
-        int ncases = thorough ? 4000 : 260;
+        int ncases = thorough ? SH(4000) : 260;
         for (i = 0; i < ncases; i++) {
             int kind = i % 3 == 0 ? D_RANDOM : (int)rndn(D_KINDS); size_t n = rndp(70) ? rndn(thorough ? 700 : 300) : gen_size(3000);
             int bound, cap, entry, param;
@@ -230,7 +230,7 @@ int main(int argc, char** argv)
             entry = pick_entry(0); param = pick_param(entry);
             for (cap = 0; cap <= bound + 1; cap++) do_case(data, n, entry, param, cap, kind, 1);
         }
-        for (i = 0; i < (thorough ? 3000 : 300); i++) {
+        for (i = 0; i < (thorough ? SH(3000) : 300); i++) {
             int kind = rndp(50) ? D_RANDOM : (int)rndn(D_KINDS); size_t n = gen_size(maxn); int bound, entry, param, cap;
             gen_data(data, n, kind); bound = LZ4_compressBound((int)n);
             entry = pick_entry(0); param = pick_param(entry);
@@ -239,7 +239,7 @@ int main(int argc, char** argv)
             if (cap < 0) cap = 0;
             do_case(data, n, entry, param, cap, kind, 1);
         }
-        long_literal_sweep(data, thorough ? 6000 : 700, thorough);
+        long_literal_sweep(data, thorough ? SH(6000) : 700, thorough);
         /* invalid sizes: negative and above LZ4_MAX_INPUT_SIZE must give 0 without touching memory */
         {   static const int bad[] = {-1, -2, -2147483647 - 1, LZ4_MAX_INPUT_SIZE + 1, 2147483647};
             int b, e; char d[64]; char s[64]; memset(s, 1, sizeof s);
@@ -255,7 +255,7 @@ int main(int argc, char** argv)
         }
     } else if (!strcmp(mode, "c17")) {
         /* every targetDstSize 1..bound+1 for small inputs, all three destSize entry points, all HC parsers */
-        int ncases = thorough ? 2500 : 160;
+        int ncases = thorough ? SH(2500) : 160;
         {   /* the smallest inputs (0..14 bytes: below and at LZ4_minLength / MFLIMIT) x every HC level and a few accelerations x every target */
             size_t n; int lv, t;
             for (n = 0; n <= 14; n++) { int kind = (int)rndn(D_KINDS); int bound; gen_data(data, n, kind); bound = LZ4_compressBound((int)n);
@@ -270,7 +270,7 @@ int main(int argc, char** argv)
             entry = E_DESTSIZE + (int)rndn(3); param = pick_param(entry);
             for (t = 1; t <= bound + 1; t++) do_case(data, n, entry, param, t, kind, 1);
         }
-        for (i = 0; i < (thorough ? 3000 : 300); i++) {
+        for (i = 0; i < (thorough ? SH(3000) : 300); i++) {
             int kind = (int)rndn(D_KINDS); size_t n = gen_size(maxn); int bound, entry, param, t;
             gen_data(data, n, kind); bound = LZ4_compressBound((int)n);
             entry = E_DESTSIZE + (int)rndn(3); param = pick_param(entry);
